@@ -151,7 +151,7 @@ func (t *tunnel) run(topo string, seed int64, conns, maxBytes int, o *Out) strin
 		}
 	}()
 	if topo == "f1" || topo == "f2" {
-		sink, err := net.Listen("tcp", "127.0.0.1:0")
+		sink, err := ListenRetry("tcp", "127.0.0.1:0")
 		if err != nil {
 			return err.Error()
 		}
@@ -162,7 +162,7 @@ func (t *tunnel) run(topo string, seed int64, conns, maxBytes int, o *Out) strin
 		}, log.NewNopLogger())
 		go func() { _ = agent.Serve(ln) }()
 		cleanup = append(cleanup, func() { agent.Close() })
-		front, err := net.Listen("tcp", "127.0.0.1:0")
+		front, err := ListenRetry("tcp", "127.0.0.1:0")
 		if err != nil {
 			return err.Error()
 		}
